@@ -481,7 +481,10 @@ def run_c20(core, pid, tier, seed, replay):
         line = lines[i]
         x, xkv = split_out(ai[i]); y, ykv = split_out(bi[i]); mx, mxkv = split_out(am[i]); my, mykv = split_out(bm[i])
         if y == "skip": continue
-        key = line.split()[0] + ":" + x.split()[0].split(":")[0]; dist[key] = dist.get(key, 0) + 1
+        x0 = x.split()[0].split(":")[0]
+        if line.startswith("api "):   # a history's outcome is the list of its operations' results: classify, do not enumerate
+            x0 = "%d-ops-%d-ok-%d-err-%d-ran" % (len(x0.split(",")), x0.split(",").count("ok"), x0.split(",").count("err"), sum(1 for t in x0.split(",") if t.startswith("v")))
+        key = line.split()[0] + ":" + x0; dist[key] = dist.get(key, 0) + 1
         if x not in ("bad-op",): nontriv.add(line)
         why = None
         if x != mx: why = "default build gives '%s' where the model gives '%s'" % (x[:80], mx[:80])
